@@ -167,13 +167,15 @@ outer:
 		if len(parts) < 2 {
 			continue
 		}
-		if parts[0] != "script-src" {
+		// Directive names are ASCII case-insensitive.
+		if !strings.EqualFold(parts[0], "script-src") {
 			continue
 		}
 		for _, source := range parts[1:] {
 			source = strings.TrimPrefix(source, "'")
 			source = strings.TrimSuffix(source, "'")
-			if strings.HasPrefix(source, "nonce-") {
+			// The nonce-source keyword is ASCII case-insensitive, its value is not.
+			if len(source) > 6 && strings.EqualFold(source[:6], "nonce-") {
 				nonce = source[6:]
 				break outer
 			}
